@@ -8,6 +8,7 @@ CONSTANTS
   MaxRevoke = 2
   MaxFault = 2
   NBackoff = 1
+  MaxExpire = 0
   MaxRounds = 1
   Variant = "code"
   Mode = "sess"
